@@ -9,6 +9,7 @@ import JV.Model.Bson
 import JV.Model.EncoderEvents
 import JV.Model.CborParser
 import JV.Model.MsgpackParser
+import JV.Model.UbjsonParser
 namespace JV
 namespace Drv
 open Spec.Cbor
@@ -119,6 +120,21 @@ def depthOpt (opts : String) : Nat :=
   | 'd' :: cs => (String.ofList cs).toNat?.getD Model.CborParser.defaultMaxDepth
   | _ => Model.CborParser.defaultMaxDepth
 
+/-- the harness's UBJSON option string: `d<N>` = max_nesting_depth, `m<N>` = max_items, `-` = nothing (parse_opts in harness/bin.cpp) -/
+def ubjOpts (opts : String) : Model.UbjsonParser.Opts :=
+  let rec go (fuel : Nat) (cs : List Char) (o : Model.UbjsonParser.Opts) : Model.UbjsonParser.Opts :=
+    match fuel, cs with
+    | 0, _ => o
+    | _, [] => o
+    | fuel + 1, k :: rest =>
+      let ds := rest.takeWhile Char.isDigit
+      let v := (String.ofList ds).toNat?.getD 0
+      let rest2 := rest.dropWhile Char.isDigit
+      if k = 'd' then go fuel rest2 { o with maxDepth := v }
+      else if k = 'm' then go fuel rest2 { o with maxItems := v }
+      else go fuel rest o
+  go opts.length opts.toList {}
+
 /-- bin sdec <fmt> x<bytes> -/
 def binaryLine : List String → String
   | ["mdec", "cbor", opts, x] =>
@@ -144,6 +160,19 @@ def binaryLine : List String → String
          | none => "skip")
        | .fail (.err e) => "err jsoncons/msgpack:" ++ toString e.code
        | .fail .skip => "skip"
+       | .fail .fuel => "fuel")
+  | ["mdec", "ubjson", opts, x] =>
+    -- bin mdec ubjson <-|dN|mN…> x<bytes>  →  the outcome of the ubjson_parser model: value | err jsoncons/ubjson:<code> | skip (a no-op
+    -- marker where a member value or the root value is expected)
+    (match (match x.toList with | 'x' :: cs => Wire.bytesOfHexChars cs | _ => none) with
+     | none => "bad-op"
+     | some s =>
+       let o := ubjOpts opts
+       match Model.UbjsonParser.decodeWith o (3 * s.length + 3 + min o.maxItems 1048576) s with
+       | .ok v _ => (match Model.UbjsonParser.toBV true true v with
+         | some bv => "ok " ++ " ".intercalate (bvTokens bv)
+         | none => "skip")
+       | .fail (.err e) => "err jsoncons/ubjson:" ++ toString e.code
        | .fail .fuel => "fuel")
   | ["sdec", fmt, x] =>
     match (match x.toList with | 'x' :: cs => Wire.bytesOfHexChars cs | _ => none) with
